@@ -90,6 +90,9 @@ A(Fn(CLI, "connect", impl=r"impl Connector", mod="client", props=["C17", "C02", 
             (r"let global = global::Client::new\(", 1, "proof { assert(exists|ext: Seq<u8>| #[trigger] (w2 + mcs::mcs_frame(uid, gl, sec::client_info_pdu(sec::info_packet(d, u, p, self.auto_logon, ext)))) =~= mcs.written()); }", "before"),
             (r"let global = global::Client::new\(", 1, "let ghost ext = choose|ext: Seq<u8>| #[trigger] (w2 + mcs::mcs_frame(uid, gl, sec::client_info_pdu(sec::info_packet(d, u, p, self.auto_logon, ext)))) =~= mcs.written();", "before"),
             (r"let global = global::Client::new\(", 1, "proof { mcs::lemma_prefix_trans(req, w2, mcs.written()); assert(ext.len() >= 0 && w2.len() >= 0); }", "before")],
+     # the certificate-validation switch of the configuration is the one the TLS layer gets, whatever the other options (x224::connect's
+     # clause certificate-flag-threaded makes the flag of the returned client equal to the argument it was given)
+     claims=[(r"let x224 = x224::Client::connect\([^;]*\)\?;", 1, "proof { assert(x224.cert_checked() == self.check_certificate); }", "after", "C02", "certificate-check-is-the-configured-one")],
      requires=["old(self).domain@.len() <= 512 && old(self).username@.len() <= 512 && old(self).password@.len() <= 512", "stream.rest().len() >= 0"],
      ensures=[("C02", "tls-before-client-info", "r is Ok ==> r->Ok_0.tls()"),
               ("C03", "identifiers-threaded", "r is Ok ==> r->Ok_0.connected() && r->Ok_0.global_uid() == r->Ok_0.mcs_uid()->Some_0 && r->Ok_0.global_channel() == r->Ok_0.global_chan()"),
